@@ -11,7 +11,7 @@ import (
 	"strings"
 
 	"github.com/mmcloughlin/avo/build"
-	"github.com/mmcloughlin/avo/gotypes"
+	"github.com/mmcloughlin/avo/ir"
 	"github.com/mmcloughlin/avo/operand"
 	"github.com/mmcloughlin/avo/pass"
 	"github.com/mmcloughlin/avo/printer"
@@ -92,9 +92,40 @@ func c08MoveFull(ctx *build.Context, class string, src, dst operand.Op) {
 	}
 }
 
+// c08ArrayBytes: every measured array is 32 bytes; the component under test is element 1, so there are
+// recognisable bytes BEFORE and AFTER it.
+const c08ArrayBytes = 32
+
+// c08UnderTest: the opcode of the instruction that follows the marker comment in function name.
+func c08UnderTest(fn *ir.Function) string {
+	marked := false
+	for _, n := range fn.Nodes {
+		switch x := n.(type) {
+		case *ir.Comment:
+			for _, l := range x.Lines {
+				if strings.HasPrefix(l, "instruction under test") {
+					marked = true
+				}
+			}
+		case *ir.Instruction:
+			if marked {
+				opc := x.Opcode
+				if len(x.Suffixes) > 0 {
+					opc += "." + strings.Join(x.Suffixes, ".")
+				}
+				return opc
+			}
+		}
+	}
+	return ""
+}
+
 // c08CPU generates, builds and runs the measurement program and emits the
 // protocol lines.  Returns statistics for the evidence file.
 func c08CPU(o *out, cases []*c08Case, wd, repo string) (map[string]any, error) {
+	if len(cases) == 0 {
+		return nil, fmt.Errorf("no Load/Store input selected an instruction: nothing to measure")
+	}
 	if err := os.RemoveAll(wd); err != nil {
 		return nil, err
 	}
@@ -103,12 +134,8 @@ func c08CPU(o *out, cases []*c08Case, wd, repo string) (map[string]any, error) {
 	}
 	var rows []c08Row
 	for _, cs := range cases {
-		size := int(gotypes.Sizes.Sizeof(cs.basic))
-		k := 16 / size
-		if k < 2 {
-			k = 2
-		}
-		rows = append(rows, c08Row{cs: cs, idx: len(rows), size: size, k: k, gotyp: cs.basic.Name()})
+		size := int(c08Sizes.Sizeof(cs.basic))
+		rows = append(rows, c08Row{cs: cs, idx: len(rows), size: size, k: c08ArrayBytes / size, gotyp: cs.basic.Name()})
 	}
 	ctx := build.NewContext()
 	for _, rw := range rows {
@@ -122,8 +149,8 @@ func c08CPU(o *out, cases []*c08Case, wd, repo string) (map[string]any, error) {
 			}
 			full, view := c08FullReg(ctx, cs.reg.class)
 			c08MoveFull(ctx, cs.reg.class, operand.Mem{Base: pinp}, full)
-			ctx.Comment("instruction under test: Load(a[0], " + cs.reg.class + ")")
-			ctx.Load(ctx.Param("a").Index(0), view)
+			ctx.Comment("instruction under test: Load(a[1], " + cs.reg.class + ")")
+			ctx.Load(ctx.Param("a").Index(1), view)
 			outp, err := c08PtrParam(ctx, "out")
 			if err != nil {
 				return nil, err
@@ -133,14 +160,17 @@ func c08CPU(o *out, cases []*c08Case, wd, repo string) (map[string]any, error) {
 		} else {
 			ctx.Function(fmt.Sprintf("store%d", rw.idx))
 			ctx.SignatureExpr(fmt.Sprintf("func(pin *[64]byte) (r [%d]%s)", rw.k, rw.gotyp))
+			// pre-fill the result with 0x5a through a pointer (plumbing: no FP-named access other than the one under test)
 			p := ctx.GP64()
 			ctx.MOVQ(operand.U64(0x5a5a5a5a5a5a5a5a), p)
-			for off := 0; off < rw.k*rw.size; off += 8 {
-				b, err := ctx.Return("r").Index(off / rw.size).Resolve()
-				if err != nil {
-					return nil, err
-				}
-				ctx.MOVQ(p, b.Addr)
+			b0, err := ctx.Return("r").Index(0).Resolve()
+			if err != nil {
+				return nil, err
+			}
+			rp := ctx.GP64()
+			ctx.LEAQ(b0.Addr, rp)
+			for off := 0; off < c08ArrayBytes; off += 8 {
+				ctx.MOVQ(p, operand.Mem{Base: rp, Disp: off})
 			}
 			pinp, err := c08PtrParam(ctx, "pin")
 			if err != nil {
@@ -148,14 +178,21 @@ func c08CPU(o *out, cases []*c08Case, wd, repo string) (map[string]any, error) {
 			}
 			full, view := c08FullReg(ctx, cs.reg.class)
 			c08MoveFull(ctx, cs.reg.class, operand.Mem{Base: pinp}, full)
-			ctx.Comment("instruction under test: Store(" + cs.reg.class + ", r[0])")
-			ctx.Store(view, ctx.Return("r").Index(0))
+			ctx.Comment("instruction under test: Store(" + cs.reg.class + ", r[1])")
+			ctx.Store(view, ctx.Return("r").Index(1))
 			ctx.RET()
 		}
 	}
 	file, err := ctx.Result()
 	if err != nil {
 		return nil, fmt.Errorf("building the measurement functions: %v", err)
+	}
+	// which instruction did avo emit at the marked call in the function that is measured
+	measuredOpc := map[int]string{}
+	for i, fn := range file.Functions() {
+		if i < len(rows) {
+			measuredOpc[i] = c08UnderTest(fn)
+		}
 	}
 	if err := pass.Compile.Execute(file); err != nil {
 		return nil, fmt.Errorf("compiling the measurement functions: %v", err)
@@ -169,7 +206,6 @@ func c08CPU(o *out, cases []*c08Case, wd, repo string) (map[string]any, error) {
 	if err != nil {
 		return nil, err
 	}
-	// which instruction did avo emit for the marked call (read back from the compiled file)
 	// main.go
 	var m bytes.Buffer
 	m.WriteString("package main\n\nimport (\n\t\"encoding/hex\"\n\t\"fmt\"\n\t\"math\"\n\t\"unsafe\"\n)\n\nvar _ = math.Float32bits\nvar _ = unsafe.Pointer(nil)\n\n")
@@ -215,23 +251,23 @@ func c08CPU(o *out, cases []*c08Case, wd, repo string) (map[string]any, error) {
 				}
 			}
 			fmt.Fprintf(&m, "\tfor _, v := range patterns {\n\t\tfor _, pz := range []byte{0x5a, 0xa5} {\n\t\t\tfor i := range pin {\n\t\t\t\tpin[i] = pz\n\t\t\t}\n")
-			fmt.Fprintf(&m, "\t\t\tx := %s\n\t\t\tvar a [%d]%s\n\t\t\ta[0] = x\n", fromBits, rw.k, t)
-			// neighbours: recognisable non-zero bytes, written through the raw memory of the array
-			fmt.Fprintf(&m, "\t\t\traw := unsafe.Slice((*byte)(unsafe.Pointer(&a)), %d)\n\t\t\tfor i := %d; i < len(raw); i++ {\n\t\t\t\traw[i] = byte(0xc0 + i)\n\t\t\t}\n", rw.k*n, n)
+			fmt.Fprintf(&m, "\t\t\tx := %s\n\t\t\tvar a [%d]%s\n", fromBits, rw.k, t)
+			// neighbours on both sides: recognisable non-zero bytes, written through the raw memory of the array
+			fmt.Fprintf(&m, "\t\t\traw := unsafe.Slice((*byte)(unsafe.Pointer(&a)), %d)\n\t\t\tfor i := range raw {\n\t\t\t\traw[i] = byte(0xc0 + i)\n\t\t\t}\n\t\t\ta[1] = x\n", c08ArrayBytes)
 			fmt.Fprintf(&m, "\t\t\tmem := append([]byte(nil), raw...)\n")
 			fmt.Fprintf(&m, "\t\t\tload%d(a, &pin, &out)\n\t\t\tbase := out\n", rw.idx)
-			// dependence: flip each memory byte beyond... and inside the component
-			fmt.Fprintf(&m, "\t\t\tdep := 0\n\t\t\tfor k := 0; k < len(raw); k++ {\n\t\t\t\tb := a\n\t\t\t\tr2 := unsafe.Slice((*byte)(unsafe.Pointer(&b)), %d)\n\t\t\t\tr2[k] ^= 0xff\n", rw.k*n)
+			// dependence: which memory bytes does the register depend on (first, one past last, how many)
+			fmt.Fprintf(&m, "\t\t\tlo, hi, cnt := -1, 0, 0\n\t\t\tfor k := 0; k < len(raw); k++ {\n\t\t\t\tb := a\n\t\t\t\tr2 := unsafe.Slice((*byte)(unsafe.Pointer(&b)), %d)\n\t\t\t\tr2[k] ^= 0xff\n", c08ArrayBytes)
 			if t == "bool" {
-				// a bool may only hold 0 or 1: flip within the valid values for byte 0
-				fmt.Fprintf(&m, "\t\t\t\tif k == 0 {\n\t\t\t\t\tr2[k] = raw[k] ^ 1\n\t\t\t\t}\n")
+				// a bool may only hold 0 or 1: flip within the valid values for its byte
+				fmt.Fprintf(&m, "\t\t\t\tif k == %d {\n\t\t\t\t\tr2[k] = raw[k] ^ 1\n\t\t\t\t}\n", n)
 			}
-			fmt.Fprintf(&m, "\t\t\t\tload%d(b, &pin, &out)\n\t\t\t\tif out != base {\n\t\t\t\t\tdep = k + 1\n\t\t\t\t}\n\t\t\t}\n", rw.idx)
-			fmt.Fprintf(&m, "\t\t\tfmt.Printf(\"L %d v=%%s mem=%%s pin=%%02x reg=%%s go=%%s dep=%%d\\n\", le(%s, %d), hex.EncodeToString(mem), pz, hex.EncodeToString(base[:]), le(%s, %d), dep)\n", rw.idx, toBits, n, conv, w)
+			fmt.Fprintf(&m, "\t\t\t\tload%d(b, &pin, &out)\n\t\t\t\tif out != base {\n\t\t\t\t\tif lo < 0 {\n\t\t\t\t\t\tlo = k\n\t\t\t\t\t}\n\t\t\t\t\thi = k + 1\n\t\t\t\t\tcnt++\n\t\t\t\t}\n\t\t\t}\n", rw.idx)
+			fmt.Fprintf(&m, "\t\t\tfmt.Printf(\"L %d v=%%s mem=%%s pin=%%02x reg=%%s go=%%s dep=%%d:%%d:%%d\\n\", le(%s, %d), hex.EncodeToString(mem), pz, hex.EncodeToString(base[:]), le(%s, %d), lo, hi, cnt)\n", rw.idx, toBits, n, conv, w)
 			m.WriteString("\t\t}\n\t}\n")
 		} else {
 			fmt.Fprintf(&m, "\tfor _, v := range patterns {\n\t\tfor i := range pin {\n\t\t\tpin[i] = byte(0x11*(i%%15+1)) ^ byte(v>>uint(8*(i%%8)))\n\t\t}\n")
-			fmt.Fprintf(&m, "\t\tr := store%d(&pin)\n\t\traw := unsafe.Slice((*byte)(unsafe.Pointer(&r)), %d)\n", rw.idx, rw.k*n)
+			fmt.Fprintf(&m, "\t\tr := store%d(&pin)\n\t\traw := unsafe.Slice((*byte)(unsafe.Pointer(&r)), %d)\n", rw.idx, c08ArrayBytes)
 			fmt.Fprintf(&m, "\t\tfmt.Printf(\"S %d src=%%s after=%%s\\n\", hex.EncodeToString(pin[:]), hex.EncodeToString(raw))\n\t}\n", rw.idx)
 		}
 	}
@@ -262,15 +298,32 @@ func c08CPU(o *out, cases []*c08Case, wd, repo string) (map[string]any, error) {
 	if err != nil {
 		return nil, fmt.Errorf("measurement program failed: %v", err)
 	}
-	nLoad, nStore := 0, 0
+	head := func(rw c08Row) (string, string) {
+		cs := rw.cs
+		return fmt.Sprintf("%s %s %s %d %d %s", cs.dir, c08TypeToken(cs.basic.Name()), cs.reg.class, int(cs.basic.Info()), rw.size, c06EncOp(cs.reg.r)), measuredOpc[rw.idx]
+	}
+	// the instruction in the measured function is the one the isolated run selected
+	for _, rw := range rows {
+		if want := strings.TrimPrefix(rw.cs.out.resp, "op "); measuredOpc[rw.idx] != want {
+			return nil, fmt.Errorf("row %d (%s %s %s): the measured function holds %q at the marked call, the isolated run selected %q",
+				rw.idx, rw.cs.dir, rw.gotyp, rw.cs.reg.class, measuredOpc[rw.idx], want)
+		}
+	}
+	nLoad, nStore, bad := 0, 0, 0
+	perRow := map[int]int{}
 	for _, line := range strings.Split(string(outb), "\n") {
-		fs := strings.Fields(line)
-		if len(fs) < 3 {
+		if strings.TrimSpace(line) == "" {
 			continue
 		}
-		var idx int
-		fmt.Sscanf(fs[1], "%d", &idx)
-		if idx < 0 || idx >= len(rows) {
+		fs := strings.Fields(line)
+		idx := -1
+		if len(fs) >= 3 {
+			if _, err := fmt.Sscanf(fs[1], "%d", &idx); err != nil {
+				idx = -1
+			}
+		}
+		if idx < 0 || idx >= len(rows) || (fs[0] != "L" && fs[0] != "S") {
+			bad++
 			continue
 		}
 		rw := rows[idx]
@@ -281,24 +334,29 @@ func c08CPU(o *out, cases []*c08Case, wd, repo string) (map[string]any, error) {
 				kvs[f[:i]] = f[i+1:]
 			}
 		}
-		opc := strings.TrimPrefix(cs.out.resp, "op ")
+		hd, opc := head(rw)
 		regTok := c06EncOp(cs.reg.r)
-		ti := int(cs.basic.Info())
-		head := fmt.Sprintf("%s %s %s %d %d %s", cs.dir, c08TypeToken(cs.basic.Name()), cs.reg.class, ti, rw.size, regTok)
+		off := rw.size // the component is element 1
+		perRow[idx]++
 		switch fs[0] {
 		case "L":
+			regImg, err1 := hex.DecodeString(kvs["reg"])
+			memImg, err2 := hex.DecodeString(kvs["mem"])
+			if err1 != nil || err2 != nil || len(regImg) != 64 || len(memImg) != c08ArrayBytes {
+				bad++
+				continue
+			}
 			nLoad++
-			regImg, _ := hex.DecodeString(kvs["reg"])
 			// model of the instruction: resulting register bytes (value part)
 			var got string
 			switch cs.reg.r.Kind() {
 			case reg.KindGP:
-				off := 0
+				roff := 0
 				if cs.reg.class == "gp8h" {
-					off = 1
+					roff = 1
 				}
-				nb := c08ValueBytes(opc, int(cs.reg.r.Size()))
-				got = hex.EncodeToString(regImg[off : off+nb])
+				nb := int(cs.reg.r.Size())
+				got = hex.EncodeToString(regImg[roff : roff+nb])
 			case reg.KindOpmask:
 				got = hex.EncodeToString(regImg[:8])
 			default:
@@ -308,31 +366,77 @@ func c08CPU(o *out, cases []*c08Case, wd, repo string) (map[string]any, error) {
 				}
 				got = hex.EncodeToString(regImg[:w])
 			}
-			o.emit(fmt.Sprintf("cpu-load %s %s %s", opc, regTok, kvs["mem"]), got)
-			o.emit(fmt.Sprintf("accept-cpu %s %s v=%s reg=%s go=%s dep=%s", head, opc, kvs["v"], kvs["reg"], kvs["go"], kvs["dep"]), "ok")
+			o.emit(fmt.Sprintf("cpu-load %s %s %s", opc, regTok, hex.EncodeToString(memImg[off:])), got)
+			o.emit(fmt.Sprintf("accept-cpu %s %s off=%d v=%s reg=%s go=%s dep=%s", hd, opc, off, kvs["v"], kvs["reg"], kvs["go"], kvs["dep"]), "ok")
 		case "S":
-			nStore++
-			src, _ := hex.DecodeString(kvs["src"])
-			off := 0
-			if cs.reg.class == "gp8h" {
-				off = 1
+			src, err1 := hex.DecodeString(kvs["src"])
+			after, err2 := hex.DecodeString(kvs["after"])
+			if err1 != nil || err2 != nil || len(src) != 64 || len(after) != c08ArrayBytes {
+				bad++
+				continue
 			}
-			before := strings.Repeat(fmt.Sprintf("%02x", c08Poison), rw.k*rw.size)
-			o.emit(fmt.Sprintf("cpu-store %s %s %s %s", opc, regTok, hex.EncodeToString(src[off:]), before), kvs["after"])
-			o.emit(fmt.Sprintf("accept-cpu %s %s src=%s before=%s after=%s", head, opc, kvs["src"], before, kvs["after"]), "ok")
+			nStore++
+			roff := 0
+			if cs.reg.class == "gp8h" {
+				roff = 1
+			}
+			before := strings.Repeat(fmt.Sprintf("%02x", c08Poison), c08ArrayBytes)
+			o.emit(fmt.Sprintf("cpu-store %s %s %s %s", opc, regTok, hex.EncodeToString(src[roff:]), before[2*off:]), hex.EncodeToString(after[off:]))
+			o.emit(fmt.Sprintf("accept-cpu %s %s off=%d src=%s before=%s after=%s", hd, opc, off, kvs["src"], before, kvs["after"]), "ok")
 		}
 	}
-	if nLoad+nStore == 0 {
-		return nil, fmt.Errorf("measurement program printed nothing")
+	// every row must have produced all its observations (12 patterns; loads x 2 register poisons)
+	for _, rw := range rows {
+		want := 12
+		if rw.cs.dir == "load" {
+			want = 24
+		}
+		if perRow[rw.idx] != want {
+			return nil, fmt.Errorf("row %d (%s %s %s): %d observations, expected %d", rw.idx, rw.cs.dir, rw.gotyp, rw.cs.reg.class, perRow[rw.idx], want)
+		}
+	}
+	if bad != 0 {
+		return nil, fmt.Errorf("measurement program printed %d lines that could not be interpreted", bad)
+	}
+	// go vet -asmdecl: a width diagnostic inside a measured function is about the instruction under test (the
+	// plumbing does not touch FP names other than 8-byte pointers); it is judged by the model (accept-vet)
+	nVet, vetOther := 0, 0
+	var vetLines []string
+	for _, line := range strings.Split(string(vetOut), "\n") {
+		line = strings.TrimSpace(line)
+		if line == "" || strings.HasPrefix(line, "#") {
+			continue
+		}
+		vetLines = append(vetLines, line)
+		idx := -1
+		for _, pref := range []string{"] load", "] store"} {
+			if i := strings.Index(line, pref); i >= 0 {
+				rest := line[i+len(pref):]
+				if j := strings.IndexByte(rest, ':'); j > 0 {
+					if _, err := fmt.Sscanf(rest[:j], "%d", &idx); err != nil {
+						idx = -1
+					}
+				}
+			}
+		}
+		if idx < 0 || idx >= len(rows) {
+			vetOther++
+			continue
+		}
+		nVet++
+		hd, opc := head(rows[idx])
+		msg := line
+		if i := strings.Index(line, "] "); i >= 0 {
+			msg = line[i+2:]
+		}
+		if i := strings.Index(msg, ": "); i >= 0 {
+			msg = msg[i+2:]
+		}
+		o.emit(fmt.Sprintf("accept-vet %s %s %s", hd, opc, c06Hex(msg)), "ok")
 	}
 	return map[string]any{"rows_measured": len(rows), "load_observations": nLoad, "store_observations": nStore,
-		"go_vet_asmdecl": strings.TrimSpace(string(vetOut))}, nil
+		"go_vet_asmdecl_diagnostics": nVet, "go_vet_unattributed_lines": vetOther, "go_vet_asmdecl": vetLines}, nil
 }
-
-// c08ValueBytes: how many low register bytes the harness reports for a load
-// into a general-purpose register: the bytes the instruction defines as the
-// (extended) value — the destination operand's width.
-func c08ValueBytes(opc string, regSize int) int { return regSize }
 
 func c08IsFullVector(opc string) bool {
 	return strings.HasPrefix(opc, "VMOVDQU") || opc == "MOVOU"
